@@ -70,6 +70,12 @@ Definition protocol_with (want:errk -> bool) (n:nat) (p:stmt) : bool :=
 Definition protocol_ok := protocol_with is_fatal.
 Definition protocol_strict := protocol_with is_max.
 
+(* the out-of-range half WITHOUT the exemption for the warn switch: for transformations that are not documented to
+   support --warn-on-counter-out-of-bounds the switch changes nothing *)
+Definition oob_strict_with (want:errk -> bool) (n:nat) (p:stmt) : bool :=
+  forallb (fun e => forallb (fun l => let r := exec e (orc_of l) p st0 in
+                                      e_query e || negb (e_oob e) || (want (s_err r) && negb (s_rewrote r))) (all_bits n)) envs.
+
 (* only the query half: with the query flag no effect statement is executed *)
 Definition query_safe (n:nat) (p:stmt) : bool :=
   forallb (fun e => forallb (fun l => negb (e_query e) || negb (s_rewrote (exec e (orc_of l) p st0))) (all_bits n)) envs.
